@@ -15,7 +15,7 @@ MANIFEST = {
     },
     "C14": {
         "technique": "Lean 4 proof (invariants of a small-step transition-system model of Server::run + Socket::Poll over all histories, callback scripts and kernel answers) + differential correspondence model vs real Server under virtual time with interposed clock_gettime/epoll_wait/epoll_ctl/send",
-        "text": "45 theorems over ALL histories of the Lean model (API calls, arbitrary callback scripts that create and remove timers, socket-pair clients, listeners and establishers also from inside callbacks (Act.mkTimer/mkPair/mkListener/mkEst, rm*), any epoll_wait answer in any order, any time advance, any send outcome): no_fault (no null/dangling pointer use), timer_queue_exact, timer_not_early, timer_order, timer_once_per_interval, timer_intervals_positive, activation_moves_due_forward, poll_timeout_is_next_due, callbacks_only_to_live, removed_never_called (all four object kinds, also with events pending), dispatch_only_registered_kinds, client_interest, suspended_client_no_onRead, failed_io_then_onClosed at history level (a queued client gets onClosed or is deleted before run() polls again; membership in the closing list persists across all calls and scripts), run_returns_only_on_interrupt, interrupt_returns_run, interrupt_never_lost (interrupt() of other threads as two interleaved moves). The model is tied to the current Server.cpp/Socket.cpp on every run: identical op lines are executed on a real Server (socket pairs, loop-back listeners and establishers, virtual clock, epoll_wait answered from the really-ready set permuted/truncated by the schedule, callback scripts) and on the compiled model; an independent Python reference timer scheduler predicts pure timer programs exactly and a monitor evaluates removed_never_called / timer_not_early / timer_order / timeliness / live-object sets directly on the implementation's callback log.",
+        "text": "47 theorems over ALL histories of the Lean model (API calls, arbitrary callback scripts that create and remove timers, socket-pair clients, listeners and establishers also from inside callbacks (Act.mkTimer/mkPair/mkListener/mkEst, rm*), any epoll_wait answer in any order, any time advance, any send outcome): no_fault (no null/dangling pointer use), timer_queue_exact, timer_not_early, timer_order, timer_once_per_interval, timer_intervals_positive, activation_moves_due_forward, poll_timeout_is_next_due, callbacks_only_to_live, removed_never_called (all four object kinds, also with events pending), dispatch_only_registered_kinds, client_interest, suspended_client_no_onRead, failed_io_then_onClosed at history level (a queued client gets onClosed or is deleted before run() polls again; membership in the closing list persists across all calls and scripts), run_returns_only_on_interrupt, interrupt_returns_run, interrupt_never_lost, interrupt_eventually_returns (from any reachable state with a pending interrupt run() returns after finitely many steps for every kernel answer that reports the event descriptor — well-founded measure; for quiet callback scripts), kernel_is_asked_again (conditional progress form of ready_eventually_dispatched) (interrupt() of other threads as two interleaved moves). The model is tied to the current Server.cpp/Socket.cpp on every run: identical op lines are executed on a real Server (socket pairs, loop-back listeners and establishers, virtual clock, epoll_wait answered from the really-ready set permuted/truncated by the schedule, callback scripts) and on the compiled model; an independent Python reference timer scheduler predicts pure timer programs exactly and a monitor evaluates removed_never_called / timer_not_early / timer_order / timeliness / live-object sets directly on the implementation's callback log.",
         "note": "Trusted: Lean kernel + the three standard axioms; hand translation of run()/Poll into the model (validated by the correspondence run, not proved). Modelled rather than verified: MultiMap as a key-sorted FIFO multimap with lower-bound find (C01 incl. the repair of D1 — without it the check reports D19 with a 2-timer failing input), PoolList/HashSet/HashMap as reference containers (C02/C03), kernel epoll/eventfd/socket readiness (assumption; the harness prints ENV-FAIL when the kernel deviates), interrupt() from another thread as two moves (flag under the mutex, then event-descriptor write) interleaved arbitrarily with run() in the theorems — the correspondence run exercises interrupt() from callbacks, between runs, from inside epoll_wait and (op `runmt`; timers-only programs and programs with idle registered sockets) from a real second thread racing with run(); weak-memory effects on the unlocked read of _interrupted are not modelled, host-name resolving establishers and Server::clear() not modelled, failing connects are injected through an interposed getsockopt(SO_ERROR) (a real refused loop-back connect is not deterministic), peers of accepted/connected TCP clients never close in the correspondence runs. OPEN (not proved): ready_eventually_dispatched (liveness under kernel fairness) and real-time bounds; the model proves only that run() never sleeps past a due timer. Top-level API moves may interleave with steps while run() is active: an over-approximation for the safety theorems, not a claim that remove() is thread-safe. The model mirrors the repaired code (fixes/server/01, 02, 03: Server::time raises an interval below 1 ms to 1 ms — with interval 0 the timer loop never ended and interrupt() could not make run() return).",
         "design_ref": "DESIGN.md 3/C14",
     },
@@ -978,7 +978,7 @@ def check_c14(ctx):
         ctx.cov["env_fail_lines"] = st.envfail
         ctx.cov["runs_interrupted_by_a_real_second_thread"] = getattr(st, "mt", 0)
         ctx.cov["open_statements"] = [
-            "interrupt_eventually_returns (composition over steps): proved are interrupt_never_lost, interrupt_signals_eventfd, interrupt_returns_run (the step at an empty batch with the event descriptor reported), timer_intervals_positive + activation_moves_due_forward (the timer loop ends), failed_io_then_onClosed/poll_only_after_closing (the closing loop is left only when empty) and poll_step_drains_batch (the batch drains); the well-founded composition of these into 'run() returns within a bound' (which also needs: no callback script re-queues a closed client forever) is not proved",
+            "interrupt_eventually_returns and kernel_is_asked_again are proved for QUIET callback scripts (no timer creation, no read/write inside callbacks) and for every kernel answer that reports the event descriptor; for arbitrary scripts they are false in the C++ as well (a script that reads a closed client again inside onClosed re-queues it forever) — the exact class of admissible scripts between 'quiet' and 'arbitrary' is not characterised",
             "ready_eventually_dispatched: under a fair kernel every registered ready socket is eventually dispatched (liveness; only the safety half is proved: buffered_events_are_registered, dispatch_only_registered_kinds)",
             "interrupt() racing with run(): proved for the two-move model (flag, then event descriptor) under sequential consistency; exercised with a real second thread (op runmt) in timers-only programs and with idle clients/listeners registered",
             "resolver-based establishers (connect by host name) are not modelled; a failing connect is injected through the interposed getsockopt(SO_ERROR)",
